@@ -183,4 +183,156 @@ public final class VerifOps {
         int nib = Character.digit(x.charAt(k / 4), 16);
         return IntValue.gen((nib >> (3 - (k % 4))) & 1);
     }
+    // ---------------- VerifCrypto (Keccak-256; modular exponentiation / inverse on BigNat strings) ----------------
+    private static final long[] KECCAK_RC = {
+        0x0000000000000001L, 0x0000000000008082L, 0x800000000000808aL, 0x8000000080008000L, 0x000000000000808bL, 0x0000000080000001L,
+        0x8000000080008081L, 0x8000000000008009L, 0x000000000000008aL, 0x0000000000000088L, 0x0000000080008009L, 0x000000008000000aL,
+        0x000000008000808bL, 0x800000000000008bL, 0x8000000000008089L, 0x8000000000008003L, 0x8000000000008002L, 0x8000000000000080L,
+        0x000000000000800aL, 0x800000008000000aL, 0x8000000080008081L, 0x8000000000008080L, 0x0000000080000001L, 0x8000000080008008L };
+    private static final int[] KECCAK_ROT = { 1, 3, 6, 10, 15, 21, 28, 36, 45, 55, 2, 14, 27, 41, 56, 8, 25, 43, 62, 18, 39, 61, 20, 44 };
+    private static final int[] KECCAK_PIL = { 10, 7, 11, 17, 18, 3, 5, 16, 8, 21, 24, 4, 15, 23, 19, 13, 12, 2, 20, 14, 22, 9, 6, 1 };
+
+    private static void keccakF(long[] st) {
+        long[] bc = new long[5];
+        for (int round = 0; round < 24; round++) {
+            for (int i = 0; i < 5; i++) bc[i] = st[i] ^ st[i + 5] ^ st[i + 10] ^ st[i + 15] ^ st[i + 20];
+            for (int i = 0; i < 5; i++) {
+                long t = bc[(i + 4) % 5] ^ Long.rotateLeft(bc[(i + 1) % 5], 1);
+                for (int j = 0; j < 25; j += 5) st[j + i] ^= t;
+            }
+            long t = st[1];
+            for (int i = 0; i < 24; i++) {
+                int j = KECCAK_PIL[i];
+                long b = st[j];
+                st[j] = Long.rotateLeft(t, KECCAK_ROT[i]);
+                t = b;
+            }
+            for (int j = 0; j < 25; j += 5) {
+                for (int i = 0; i < 5; i++) bc[i] = st[j + i];
+                for (int i = 0; i < 5; i++) st[j + i] ^= (~bc[(i + 1) % 5]) & bc[(i + 2) % 5];
+            }
+            st[0] ^= KECCAK_RC[round];
+        }
+    }
+
+    // Keccak-256 (the original Keccak padding 0x01 .. 0x80, rate 136 bytes, capacity 512 bits), as used by Ethereum
+    static byte[] keccak256(byte[] in) {
+        final int rate = 136;
+        int padded = (in.length / rate + 1) * rate;
+        byte[] m = java.util.Arrays.copyOf(in, padded);
+        m[in.length] ^= 0x01;
+        m[padded - 1] ^= (byte) 0x80;
+        long[] st = new long[25];
+        for (int off = 0; off < padded; off += rate) {
+            for (int i = 0; i < rate / 8; i++) {
+                long v = 0;
+                for (int b = 0; b < 8; b++) v |= (m[off + 8 * i + b] & 0xffL) << (8 * b);
+                st[i] ^= v;
+            }
+            keccakF(st);
+        }
+        byte[] out = new byte[32];
+        for (int i = 0; i < 4; i++) for (int b = 0; b < 8; b++) out[8 * i + b] = (byte) (st[i] >>> (8 * b));
+        return out;
+    }
+
+    @TLAPlusOperator(identifier = "Keccak256", module = "VerifCrypto", warn = false)
+    public static Value keccak256op(Value h) { return new StringValue(hex(keccak256(unhex(str(h))))); }
+
+    // a^e mod m  (m >= 1)
+    @TLAPlusOperator(identifier = "ModPow", module = "VerifCrypto", warn = false)
+    public static Value modPow(Value a, Value e, Value m) { return s(n(a).modPow(n(e), n(m))); }
+
+    // the x in [0, m) with a * x = 1 (mod m); an error when a is not invertible modulo m
+    @TLAPlusOperator(identifier = "ModInv", module = "VerifCrypto", warn = false)
+    public static Value modInv(Value a, Value m) { return s(n(a).modInverse(n(m))); }
+
+    // ---------------- VmCrypto (performance overrides of TLA+-defined operators; VmCryptoTest checks override = definition) ----------------
+    private static BigInteger field(Value rec, String name) {
+        tlc2.value.impl.RecordValue r = (tlc2.value.impl.RecordValue) rec.toRcd();
+        for (int k = 0; k < r.names.length; k++) if (r.names[k].toString().equals(name)) return n(r.values[k]);
+        throw new RuntimeException("VmCrypto: curve record without field " + name);
+    }
+    // a point: <<x, y>> or <<>> (infinity)
+    private static BigInteger[] point(Value v) {
+        tlc2.value.impl.TupleValue t = (tlc2.value.impl.TupleValue) v.toTuple();
+        if (t.size() == 0) return null;
+        return new BigInteger[] { n(t.elems[0]), n(t.elems[1]) };
+    }
+    private static Value pointValue(BigInteger[] P) {
+        if (P == null) return new tlc2.value.impl.TupleValue(new Value[0]);
+        return new tlc2.value.impl.TupleValue(new Value[] { s(P[0]), s(P[1]) });
+    }
+    private static BigInteger[] ecAdd(BigInteger p, BigInteger a, BigInteger[] P, BigInteger[] Q) {
+        if (P == null) return Q;
+        if (Q == null) return P;
+        BigInteger lam;
+        if (P[0].equals(Q[0])) {
+            if (!P[1].equals(Q[1]) || P[1].signum() == 0) return null;
+            lam = P[0].multiply(P[0]).multiply(BigInteger.valueOf(3)).add(a).multiply(P[1].shiftLeft(1).modInverse(p)).mod(p);
+        } else {
+            lam = Q[1].subtract(P[1]).multiply(Q[0].subtract(P[0]).mod(p).modInverse(p)).mod(p);
+        }
+        BigInteger x3 = lam.multiply(lam).subtract(P[0]).subtract(Q[0]).mod(p);
+        BigInteger y3 = lam.multiply(P[0].subtract(x3)).subtract(P[1]).mod(p);
+        return new BigInteger[] { x3, y3 };
+    }
+
+    // CrEcMul(C, P, k): [k]P on y^2 = x^3 + C.a x + C.b over F_(C.p), double-and-add over 256 bits, most significant first
+    @TLAPlusOperator(identifier = "CrEcMul", module = "VmCrypto", warn = false)
+    public static Value crEcMul(Value C, Value P, Value k) {
+        BigInteger p = field(C, "p"), a = field(C, "a"), kk = n(k);
+        BigInteger[] pt = point(P), acc = null;
+        for (int i = 255; i >= 0; i--) {
+            acc = ecAdd(p, a, acc, acc);
+            if (kk.testBit(i)) acc = ecAdd(p, a, acc, pt);
+        }
+        return pointValue(acc);
+    }
+
+    // F_p^2 = F_p[u]/(u^2 + 1): {real, imaginary}
+    private static BigInteger[] f2(Value v) {
+        tlc2.value.impl.TupleValue t = (tlc2.value.impl.TupleValue) v.toTuple();
+        return new BigInteger[] { n(t.elems[0]), n(t.elems[1]) };
+    }
+    private static BigInteger[] f2mul(BigInteger p, BigInteger[] x, BigInteger[] y) {
+        return new BigInteger[] { x[0].multiply(y[0]).subtract(x[1].multiply(y[1])).mod(p), x[0].multiply(y[1]).add(x[1].multiply(y[0])).mod(p) };
+    }
+    private static BigInteger[] f2sub(BigInteger p, BigInteger[] x, BigInteger[] y) { return new BigInteger[] { x[0].subtract(y[0]).mod(p), x[1].subtract(y[1]).mod(p) }; }
+    private static BigInteger[] f2inv(BigInteger p, BigInteger[] x) {
+        BigInteger d = x[0].multiply(x[0]).add(x[1].multiply(x[1])).mod(p).modInverse(p);
+        return new BigInteger[] { x[0].multiply(d).mod(p), x[1].negate().multiply(d).mod(p) };
+    }
+    private static boolean f2eq(BigInteger[] x, BigInteger[] y) { return x[0].equals(y[0]) && x[1].equals(y[1]); }
+    // points of the twist (a = 0): {x, y} with x, y in F_p^2, null = infinity
+    private static BigInteger[][] g2Add(BigInteger p, BigInteger[][] P, BigInteger[][] Q) {
+        if (P == null) return Q;
+        if (Q == null) return P;
+        BigInteger[] lam;
+        if (f2eq(P[0], Q[0])) {
+            if (!f2eq(P[1], Q[1]) || (P[1][0].signum() == 0 && P[1][1].signum() == 0)) return null;
+            BigInteger[] three = { BigInteger.valueOf(3), BigInteger.ZERO };
+            BigInteger[] twoY = { P[1][0].shiftLeft(1).mod(p), P[1][1].shiftLeft(1).mod(p) };
+            lam = f2mul(p, f2mul(p, three, f2mul(p, P[0], P[0])), f2inv(p, twoY));
+        } else {
+            lam = f2mul(p, f2sub(p, Q[1], P[1]), f2inv(p, f2sub(p, Q[0], P[0])));
+        }
+        BigInteger[] x3 = f2sub(p, f2sub(p, f2mul(p, lam, lam), P[0]), Q[0]);
+        BigInteger[] y3 = f2sub(p, f2mul(p, lam, f2sub(p, P[0], x3)), P[1]);
+        return new BigInteger[][] { x3, y3 };
+    }
+
+    // Cr2InSubgroup(P): [r]P = O for P = <<x, y>> on the BN254 twist (x, y in F_p^2), r the group order
+    @TLAPlusOperator(identifier = "Cr2InSubgroup", module = "VmCrypto", warn = false)
+    public static Value cr2InSubgroup(Value P) {
+        BigInteger p = new BigInteger("21888242871839275222246405745257275088696311157297823662689037894645226208583");
+        BigInteger r = new BigInteger("21888242871839275222246405745257275088548364400416034343698204186575808495617");
+        tlc2.value.impl.TupleValue t = (tlc2.value.impl.TupleValue) P.toTuple();
+        BigInteger[][] pt = { f2(t.elems[0]), f2(t.elems[1]) }, acc = null;
+        for (int i = 255; i >= 0; i--) {
+            acc = g2Add(p, acc, acc);
+            if (r.testBit(i)) acc = g2Add(p, acc, pt);
+        }
+        return acc == null ? BoolValue.ValTrue : BoolValue.ValFalse;
+    }
 }
